@@ -132,9 +132,61 @@ fn judge_helper<T: DiffableStr + ?Sized>(name: &str, out: Vec<(ChangeTag, &T)>, 
     Ok(())
 }
 
+/// the remapped expansion of the text diff with the configured algorithm (what a "shortcut" stands for)
+fn long_way<'a, T: DiffableStr + ?Sized + 'a>(d: &TextDiff<'a, 'a, 'a, T>, old: &'a T, new: &'a T, per_line: bool) -> Vec<(ChangeTag, Vec<u8>)> {
+    if per_line {
+        // utils::diff_lines is documented to return one change tag per line
+        return d.iter_all_changes().map(|c| (c.tag(), c.value().as_bytes().to_vec())).collect();
+    }
+    let r = TextDiffRemapper::from_text_diff(d, old, new);
+    d.ops().iter().flat_map(|op| r.iter_slices(op).map(|(t, s)| (t, s.as_bytes().to_vec())).collect::<Vec<_>>()).collect()
+}
+
+fn same_as_long_way<T: DiffableStr + ?Sized>(name: &str, out: &[(ChangeTag, &T)], want: Vec<(ChangeTag, Vec<u8>)>) -> Result<(), String> {
+    let got: Vec<(ChangeTag, Vec<u8>)> = out.iter().map(|(t, s)| (*t, s.as_bytes().to_vec())).collect();
+    if got != want {
+        return Err(format!(
+            "utils::{} returns {:?}, the text diff with the same algorithm expanded through TextDiffRemapper gives {:?}",
+            name,
+            got.iter().map(|(t, s)| (*t, escape_bytes(s))).collect::<Vec<_>>(),
+            want.iter().map(|(t, s)| (*t, escape_bytes(s))).collect::<Vec<_>>()
+        ));
+    }
+    Ok(())
+}
+
 fn helpers(c: &TextCase) -> Result<(), String> {
     let alg = alg_of(c.alg);
     let (ob, nb) = (&c.old.0[..], &c.new.0[..]);
+    // differential: a one-call helper is a shortcut for the text diff + remapper
+    {
+        let cfg = config(c.alg);
+        let name = ["diff_lines", "diff_words", "diff_chars", "diff_unicode_words", "diff_graphemes"][(c.tok % 5) as usize];
+        if c.use_bytes() {
+            let d = diff_bytes(&cfg, c.tok, ob, nb);
+            let want = long_way(&d, ob, nb, c.tok % 5 == 0);
+            let out = match c.tok % 5 {
+                0 => utils::diff_lines(alg, ob, nb),
+                1 => utils::diff_words(alg, ob, nb),
+                2 => utils::diff_chars(alg, ob, nb),
+                3 => utils::diff_unicode_words(alg, ob, nb),
+                _ => utils::diff_graphemes(alg, ob, nb),
+            };
+            same_as_long_way(name, &out, want)?;
+        } else {
+            let (o, n) = (c.old.as_str().unwrap(), c.new.as_str().unwrap());
+            let d = diff_str(&cfg, c.tok, o, n);
+            let want = long_way(&d, o, n, c.tok % 5 == 0);
+            let out = match c.tok % 5 {
+                0 => utils::diff_lines(alg, o, n),
+                1 => utils::diff_words(alg, o, n),
+                2 => utils::diff_chars(alg, o, n),
+                3 => utils::diff_unicode_words(alg, o, n),
+                _ => utils::diff_graphemes(alg, o, n),
+            };
+            same_as_long_way(name, &out, want)?;
+        }
+    }
     if c.use_bytes() {
         match c.tok % 5 {
             0 => judge_helper("diff_lines", utils::diff_lines(alg, ob, nb), ob, nb),
@@ -303,12 +355,14 @@ pub fn check_case(c: &TextCase, obs: &mut Obs) -> Verdict {
     let r = if c.use_bytes() {
         guard(|| {
             let d = diff_bytes(&cfg, c.tok, &c.old.0, &c.new.0);
+            exercise(&d, c.opt);
             judge(&d, &c.old.0[..], &c.new.0[..], false, obs)
         })
     } else {
         guard(|| {
             let (o, n) = (c.old.as_str().unwrap(), c.new.as_str().unwrap());
             let d = diff_str(&cfg, c.tok, o, n);
+            exercise(&d, c.opt);
             judge(&d, o, n, false, obs)
         })
     };
@@ -359,7 +413,7 @@ impl Prop for C17 {
     type Case = TextCase;
     const ID: &'static str = "C17";
     fn rule() -> String {
-        "cases = (old text, new text, tokenizer, algorithm, str | [u8]) from the shared text mixture (see C04) plus an enumeration of 6x6 corner texts x 5 tokenizers x 3 algorithms x {str,[u8]} (covers (\"\",\"\") for every algorithm). Oracle: TextDiffRemapper::{from_text_diff,new}::iter_slices(op) has the tags of DiffOp::iter_slices over the token vectors, each slice equals the concatenation of the op's tokens and is the substring of the original at the right byte offset (pointer arithmetic); slice_old/slice_new agree; non-Insert slices concatenate to old, non-Delete to new; utils::diff_{lines,words,chars,unicode_words,graphemes,slices} reconstruct both inputs, return no empty slice and do not panic; every utils::diff_slices slice is the sub-slice of the proper input at the walk position (pointer arithmetic), also over record items that compare by key only (payloads tell old from new items). 1 random case in 8 uses a CALLER-DEFINED tokenization (text cut at pseudo-random char boundaries, occasional empty tokens) through TextDiffConfig::diff_slices + both remapper constructors (the no-empty-slice clause is not applied there). Non-trivial = >= 2 ops and a multi-token slice; distinct = distinct serialized case.".into()
+        "cases = (old text, new text, tokenizer, algorithm, str | [u8]) from the shared text mixture (see C04) plus an enumeration of 6x6 corner texts x 5 tokenizers x 3 algorithms x {str,[u8]} (covers (\"\",\"\") for every algorithm). Oracle: TextDiffRemapper::{from_text_diff,new}::iter_slices(op) has the tags of DiffOp::iter_slices over the token vectors, each slice equals the concatenation of the op's tokens and is the substring of the original at the right byte offset (pointer arithmetic); slice_old/slice_new agree; non-Insert slices concatenate to old, non-Delete to new; utils::diff_{lines,words,chars,unicode_words,graphemes,slices} reconstruct both inputs, return no empty slice, do not panic and equal the text diff with the same algorithm expanded through TextDiffRemapper (diff_lines: one change per line, as documented); every utils::diff_slices slice is the sub-slice of the proper input at the walk position (pointer arithmetic), also over record items that compare by key only (payloads tell old from new items). 1 random case in 8 uses a CALLER-DEFINED tokenization (text cut at pseudo-random char boundaries, occasional empty tokens) through TextDiffConfig::diff_slices + both remapper constructors (the no-empty-slice clause is not applied there). Non-trivial = >= 2 ops and a multi-token slice; distinct = distinct serialized case.".into()
     }
     fn assumptions() -> Vec<String> {
         vec!["the original strings passed to the remapper are the ones the diff was built from".into()]
